@@ -125,8 +125,20 @@ inductive RecvRes where
 deriving DecidableEq, Repr
 
 structure Env where
-  timeOk : Str → Bool                  -- `strptime` accepts the `time` tag value
-  react : C05.Msg → List Str           -- `str()` of what `irc.feedMsg(m)` queues (e.g. PONG)
+  /-- `strptime` accepts the `time` tag value -/
+  timeOk : Str → Bool
+  /-- the `str()`s of what `irc.feedMsg(m)` queues (e.g. PONG), given everything fed before:
+  the state of a deterministic Irc is a function of that history -/
+  react : List C05.Msg → C05.Msg → List Str
+  /-- the exception escaping `irc.feedMsg(m)`, if any (C07: none when `feedMsg` is firewalled
+  and the handlers raise only `Exception`s) -/
+  feedEscapes : List C05.Msg → C05.Msg → Option String := fun _ _ => none
+  /-- the exception escaping the `takeMsg()` loop of `_sendIfMsgs`, if any -/
+  takeEscapes : List Str → Option String := fun _ => none
+
+/-- no exception escapes the Irc object's `feedMsg` / `takeMsg` -/
+def NoEscape (env : Env) : Prop :=
+  (∀ h m, env.feedEscapes h m = none) ∧ (∀ q, env.takeEscapes q = none)
 
 structure World where
   -- SocketDriver
@@ -195,14 +207,22 @@ def sendFlush (w : World) : World := if w.outbuffer = [] then w else doSend w
 def sendFinish (w : World) : World := if w.zombie && w.outbuffer = [] then reallyDie w else w
 
 /-- `SocketDriver._sendIfMsgs()` -/
-def sendIfMsgs (w : World) : World :=
+def sendPlain (w : World) : World :=
   if !w.connected then w else sendFinish (sendFlush (sendTake w))
+
+/-- … where an exception escaping `irc.takeMsg()` aborts it (and `run()`) -/
+def sendIfMsgs (env : Env) (w : World) : World :=
+  if w.connected && !w.zombie then
+    match env.takeEscapes w.queue with
+    | some e => { w with crashed := some e }
+    | none => sendPlain w
+  else sendPlain w
 
 /-! ### read side -/
 
 /-- `irc.feedMsg(msg)` on the stub: record it, queue the reaction (refused when zombie) -/
 def feedMsg (env : Env) (m : C05.Msg) (w : World) : World :=
-  let r := if w.ircZombie then [] else env.react m
+  let r := if w.ircZombie then [] else env.react w.fed m
   { w with fed := w.fed ++ [m], queue := w.queue ++ r, queued := w.queued ++ r }
 
 /-- the `for line in lines:` loop of `_read` -/
@@ -212,7 +232,10 @@ def feedLines (env : Env) : List Bytes → World → World
     match parseMsg env.timeOk (decode l) with
     | .empty => feedLines env ls w
     | .malformed => feedLines env ls w
-    | .msg m => feedLines env ls (feedMsg env m w)
+    | .msg m =>
+      match env.feedEscapes w.fed m with
+      | some e => { feedMsg env m w with crashed := some e }
+      | none => feedLines env ls (feedMsg env m w)
     | .crash e => { w with crashed := some e }
 
 /-- the body of `_read` for a non-empty `new_data` -/
@@ -221,17 +244,17 @@ def readData (env : Env) (b : Bytes) (w : World) : World :=
   feedLines env (splitLF buf).1
     { w with inbuffer := (splitLF buf).2, eagains := 0, rx := w.rx ++ b }
 
-def sendAfterRead (w : World) : World :=
+def sendAfterRead (env : Env) (w : World) : World :=
   if w.crashed.isSome then w
-  else if w.ircZombie then w else sendIfMsgs w
+  else if w.ircZombie then w else sendIfMsgs env w
 
 /-- `SocketDriver._read()` -/
 def read (env : Env) (w : World) : World :=
   match w.recvScript with
-  | [] => sendAfterRead w                               -- (not reached from `_select`: nothing readable)
+  | [] => sendAfterRead env w                               -- (not reached from `_select`: nothing readable)
   | .data [] :: rs => handleSocketError none { w with recvScript := rs }
-  | .data b :: rs => sendAfterRead (readData env b { w with recvScript := rs })
-  | .timeout :: rs => sendAfterRead { w with recvScript := rs }
+  | .data b :: rs => sendAfterRead env (readData env b { w with recvScript := rs })
+  | .timeout :: rs => sendAfterRead env { w with recvScript := rs }
   | .error e :: rs => handleSocketError (some e) { w with recvScript := rs }
 
 /-! ### `SocketDriver.run()` / `_select()` / `drivers.run()` -/
@@ -242,17 +265,18 @@ def selectRead (env : Env) (w : World) : World := if w.recvScript = [] then w el
 
 /-- the final `for instance in cls._instances` loop of `_select` (`_handleSocketError` and
 `die()` remove the instance from `_instances`; an exception in `_read` skips it) -/
-def selectSend (w : World) : World :=
+def selectSend (env : Env) (w : World) : World :=
   if w.crashed.isSome then w
-  else if !w.connected || w.zombie || w.ircZombie then w else sendIfMsgs w
+  else if !w.connected || w.zombie || w.ircZombie then w else sendIfMsgs env w
 
 /-- `_select()` for the only instance (`_instances` holds it iff connected and `die()` was not called) -/
 def select (env : Env) (w : World) : World :=
-  if !w.connected || w.zombie then w else selectSend (selectRead env w)
+  if w.crashed.isSome then w
+  else if !w.connected || w.zombie then w else selectSend env (selectRead env w)
 
 /-- `SocketDriver.run()` (no reconnect / write-check timers pending) -/
 def run (env : Env) (w : World) : World :=
-  if !w.connected then w else select env (sendIfMsgs w)
+  if !w.connected then w else select env (sendIfMsgs env w)
 
 /-- `except: log.exception(...); _deadDrivers.add(name)` -/
 def loopCatch (w : World) : World := if w.crashed.isSome then { w with removed := true } else w
@@ -286,7 +310,7 @@ def runOps (env : Env) (w : World) (ops : List Op) : World := ops.foldl (step en
 valid argument (`ircmsgs.pong` asserts `isValidArgument`; the stub swallows the assertion) -/
 def validArg (s : Str) : Bool := !(s.contains '\r' || s.contains '\n' || s.contains (Char.ofNat 0))
 
-def pingPong (m : C05.Msg) : List Str :=
+def pingPong (_ : List C05.Msg) (m : C05.Msg) : List Str :=
   if m.command = "PING".toList then
     match m.args with
     | a :: _ => if validArg a then [C05.format ⟨[], "PONG".toList, [a], []⟩] else []
